@@ -79,7 +79,7 @@ class Scratch:
 # --------------------------------------------------------------------------
 def coq_sources() -> list[str]:
     out = []
-    for sub in ("Base", "Model", "Proofs", "Props"):
+    for sub in ("Base", "Model", "Gen", "Proofs", "Props"):
         d = COQ / sub
         if d.is_dir():
             out += sorted(str(p.relative_to(COQ)) for p in d.glob("*.v"))
@@ -145,16 +145,55 @@ def _ensure_makefile():
                        stdout=subprocess.DEVNULL, stderr=subprocess.DEVNULL)
 
 
-def coq_make(targets: Sequence[str] | None = None, jobs: int = 16, timeout: int | None = None) -> tuple[bool, str]:
+REGEN_ERRORS: dict[str, str] = {}
+
+
+def regenerate() -> dict[str, str]:
+    """Regenerate coq/Gen/*.v from the current /repo sources with tools/py2v (fail closed:
+    a refused translation removes the stale generated file so that nothing can be proved
+    against text that no longer corresponds to the source).  Returns {out file: error}."""
+    sys.path.insert(0, str(VERIF / "tools"))
+    from py2v import spec, translate
+
+    errs: dict[str, str] = {}
+    (COQ / "Gen").mkdir(exist_ok=True)
+    for mod in spec.MODULES:
+        dst = COQ / mod["out"]
+        try:
+            txt = translate.translate_module(REPO, mod)
+        except Exception as e:  # noqa: BLE001 - Refused, SyntaxError, missing file ...
+            errs[mod["out"]] = f"{type(e).__name__}: {e}"
+            if dst.exists():
+                dst.unlink()
+            continue
+        if not dst.exists() or dst.read_text() != txt:
+            dst.write_text(txt)
+    REGEN_ERRORS.clear()
+    REGEN_ERRORS.update(errs)
+    return errs
+
+
+def gen_modules_for(prop: str) -> list[str]:
+    sys.path.insert(0, str(VERIF / "tools"))
+    from py2v import spec
+    return [m["out"] for m in spec.MODULES if prop in m.get("props", [])]
+
+
+def coq_make(targets: Sequence[str] | None = None, jobs: int = 16, timeout: int | None = None,
+             keep_going: bool = False) -> tuple[bool, str]:
     """Full .vo build (never -vos) of the given targets (default: everything),
-    serialised by a lock so that concurrent checks do not race on .vo files."""
+    serialised by a lock so that concurrent checks do not race on .vo files.
+    The generated sources are refreshed from /repo first."""
     timeout = timeout or COQ_TIMEOUT
     COQ.mkdir(exist_ok=True)
     lock = open(COQ / ".build.lock", "w")
     fcntl.flock(lock, fcntl.LOCK_EX)
     try:
+        regenerate()
         _ensure_makefile()
         cmd = ["timeout", str(timeout), "make", f"-j{jobs}", "--no-print-directory"]
+        if keep_going:
+            cmd.append("-k")
         if targets:
             cmd += list(targets)
         p = subprocess.run(cmd, cwd=COQ, stdout=subprocess.PIPE, stderr=subprocess.STDOUT, text=True)
